@@ -1,0 +1,10 @@
+//go:build verif
+
+// Contracts for package soyjs, checked by /verif/govc (comment-only).
+package soyjs
+
+// C13: the list of functions to import must not depend on map iteration order.
+//@ func difference
+//@   props C13
+//@   nosafety
+//@   modifies *
